@@ -15,7 +15,33 @@ FULL = ["out", "nodes", "edges", "tail", "head", "membIn", "membOut", "indeg", "
         "headsize", "size", "nattr", "eattr", "nattrK", "eattrK", "net", "uid", "frozen"]
 
 
+def _has_none(m):
+    return isinstance(m, dict) and (None in m.get("tail", []) or None in m.get("head", []))
+
+
+def qualifier(op):
+    """the mode of the call, appended to the failure class so that findings are told apart by the argument
+    shape that triggers them (weak vs strong removal; a None member; automatic vs explicit edge id; bulk format)"""
+    name = op["op"]
+    if name in ("remove_node", "remove_nodes_from"):
+        return ":strong" if op.get("strong") else ":weak"
+    if name == "add_edge":
+        if _has_none(op.get("members")):
+            return ":none-member"
+        return ":auto-id" if op.get("idx") == "$auto" else ":explicit-id"
+    if name == "add_edges_from":
+        if any(_has_none(it.get("members")) for it in op.get("items", [])):
+            return ":none-member"
+        return f":fmt{op.get('fmt')}"
+    return ""
+
+
 def pred(snap, op, prev, exc):
+    q = qualifier(op)
+    return [(cls + q, detail) for cls, detail in clauses(snap)]
+
+
+def clauses(snap):
     """the WFd clauses of lean/XgiModel/C02/Lemmas.lean evaluated on the implementation's observable state.
     Clauses are evaluated in a fixed order (IDs, attribute records, dangling references, the four pairings);
     the first failing clause names the failure class."""
@@ -93,9 +119,9 @@ def _T(t, h):
 
 
 def small_alphabet():
-    """41 calls over the universe nodes {0,1,2} (+ missing 3, None), edge IDs {0,1}: every mutator, both directions,
+    """42 calls over the universe nodes {0,1,2} (+ missing 3, None), edge IDs {0,1}: every mutator, both directions,
     weak/strong, remove_empty on/off, every bulk format, a None member, a short member tuple, copy/cleanup/relabel.
-    `freeze` is left out (see dhg.Gen.frozen_links)."""
+    freeze."""
     A = [{"op": "add_node", "n": 0, "attr": []},
          {"op": "add_nodes_from", "items": [{"n": 2}, {"n": 0, "attr": [["w", 1]]}], "attr": []}]
     for n in (0, 1):
@@ -125,7 +151,7 @@ def small_alphabet():
           {"op": "clear", "remove_net_attr": True}, {"op": "copy"},
           {"op": "cleanup", "isolates": False, "relabel": True, "in_place": True},
           {"op": "cleanup", "isolates": False, "relabel": False, "in_place": False},
-          {"op": "relabel", "label_attribute": "label"}]
+          {"op": "relabel", "label_attribute": "label"}, {"op": "freeze"}]
     return A
 
 
@@ -186,7 +212,7 @@ def run(ctx):
         xdis = run_exhaustive(ctx, fields, depth)
         ctx.exhaustive = True
         ctx.extra["exhaustive_space"] = (f"correspondence + predicate on all call sequences of length <= {depth} over a fixed alphabet of "
-                                         f"{len(small_alphabet())} calls (nodes 0..2, missing 3, None; edge ids 0,1; every mutator except freeze), "
+                                         f"{len(small_alphabet())} calls (nodes 0..2, missing 3, None; edge ids 0,1; every mutator), "
                                          "started from the empty network and from a fixed two-edge prelude; this validates the model, it is not the proof")
         if xdis and not dis:
             dis, hist = [(i, len(ops) - 1, diff) for i, (ops, diff) in enumerate(xdis)], [ops for ops, _ in xdis]
@@ -198,10 +224,9 @@ def run(ctx):
     ctx.extra["compared_fields"] = fields
     ctx.assumptions = ["IDs restricted to int/str/None (tuple edge IDs in first position of formats 2/4 are outside the model: "
                        "the format detection of add_edges_from takes them for format 1); bool/float IDs outside the model",
-                       "the model describes the code with proposed_fixes/C02-*.diff applied (validate-before-write, strong removal "
-                       "purges memberships, every explicit ID advances the counter) and a freeze list that also covers "
-                       "add_node_to_edge/remove_node_from_edge (C18's finding F12); generated histories do not call these two on a "
-                       "frozen network",
+                       "the model describes the repaired code (proposed_fixes/C02-*.diff = /repo 307633d, d32d5fa, 8a6cdf6: "
+                       "validate-before-write, strong removal purges memberships, every explicit ID advances the counter) and the "
+                       "completed freeze list (/repo 85761ac)",
                        "`copy` and `cleanup(in_place=False)` continue the history on the returned network"]
     return finish(ctx, trusted_base=TRUSTED_COMMON + [
         "harness/dhg.py: generator, executor (Box semantics of copy/cleanup), canonical snapshot through DH.nodes/DH.edges/"
